@@ -671,3 +671,165 @@ func genPoolDiscipline(g *vlib.G) {
 		})
 	}
 }
+
+// Group pool-resize: a pooled workspace is handed out at a different length than it had when it was put back.
+// A request for a cleared workspace must then be zero over its whole new extent, and a request for an
+// uncleared one must not let the old contents through. For every family of operations F(n) that draws
+// workspaces whose size depends on n, and every dirtying operation G(n1) that leaves a shorter or longer
+// workspace of the same pool kind behind (scrubbed with NaN over its full capacity), F(n2) run directly after
+// G(n1) must give bit for bit the result it gives with empty pools, for all n1 != n2 in 1..9 (so every pair of
+// lengths inside every size class 1, 2-3, 4-7, 8-15, 16-31, 32-63, 64-127 occurs).
+func resizeFamilies() []struct {
+	name string
+	run  func(n int) []float64
+} {
+	return []struct {
+		name string
+		run  func(n int) []float64
+	}{
+		{"QR.At", func(n int) []float64 { // getFloat64s(m, true) per element
+			k := n
+			if k > 2 {
+				k = 2
+			}
+			var qr mat.QR
+			qr.Factorize(mk(n, k, 61))
+			var out []float64
+			for i := 0; i < n; i++ {
+				for j := 0; j < k; j++ {
+					out = append(out, qr.At(i, j))
+				}
+			}
+			return out
+		}},
+		{"LQ.At", func(n int) []float64 {
+			k := n
+			if k > 2 {
+				k = 2
+			}
+			var lq mat.LQ
+			lq.Factorize(mk(k, n, 62))
+			var out []float64
+			for i := 0; i < k; i++ {
+				for j := 0; j < n; j++ {
+					out = append(out, lq.At(i, j))
+				}
+			}
+			return out
+		}},
+		{"Exp", func(n int) []float64 { // getDenseWorkspace(r, r, true)
+			a := mk(n, n, 63)
+			a.Scale(1.0/32, a)
+			var e mat.Dense
+			e.Exp(a)
+			return dataOf(&e)
+		}},
+		{"HOGSVD", func(n int) []float64 { // getDenseWorkspace(c, c, true)
+			var h mat.HOGSVD
+			if !h.Factorize(mk(n+1, n, 64), mk(n+2, n, 65)) {
+				return []float64{-1}
+			}
+			return h.Values(nil, 0)
+		}},
+		{"SymOuterK-self", func(n int) []float64 { // getSymDenseWorkspace(n, true)
+			s := symOf("spd", n, 66)
+			s.SymOuterK(0.5, s)
+			return dataOf(s)
+		}},
+		{"Mul-aliased", func(n int) []float64 {
+			a, b := mk(n, n, 67), mk(n, n, 68)
+			a.Mul(a, b)
+			return dataOf(a)
+		}},
+		{"Mul-generic", func(n int) []float64 {
+			var p mat.Dense
+			p.Mul(basic{mk(n, n, 69)}, basic{mk(n, n, 70)})
+			return dataOf(&p)
+		}},
+		{"LU-solve", func(n int) []float64 {
+			a, b := sq("regular", n, 71), mk(n, 1, 72)
+			var lu mat.LU
+			lu.Factorize(a)
+			err := lu.SolveTo(b, false, b)
+			return append(errBits(err), append(dataOf(b), lu.Cond())...)
+		}},
+		{"Cholesky-solve", func(n int) []float64 {
+			var ch mat.Cholesky
+			ch.Factorize(symOf("spd", n, 73))
+			v := mat.NewVecDense(n, mk(n, 1, 74).RawMatrix().Data)
+			err := ch.SolveVecTo(v, v)
+			return append(errBits(err), append(dataOf(v), ch.Cond())...)
+		}},
+		{"Pow", func(n int) []float64 {
+			a := mk(n, n, 75)
+			a.Pow(a, 5)
+			return dataOf(a)
+		}},
+		{"Solve-rect", func(n int) []float64 {
+			var x mat.Dense
+			err := x.Solve(mk(n+2, n, 76), mk(n+2, 2, 77))
+			return append(errBits(err), dataOf(&x)...)
+		}},
+		{"SVD", func(n int) []float64 {
+			var svd mat.SVD
+			if !svd.Factorize(mk(n+1, n, 78), mat.SVDThin) {
+				return []float64{-1}
+			}
+			return svd.Values(nil)
+		}},
+		{"EigenSym", func(n int) []float64 {
+			var es mat.EigenSym
+			if !es.Factorize(symOf("spd", n, 79), true) {
+				return []float64{-1}
+			}
+			return es.Values(nil)
+		}},
+	}
+}
+
+func genPoolResize(g *vlib.G) {
+	if raceMode {
+		return
+	}
+	fams := resizeFamilies()
+	maxN := vlib.Pick(g, 9, 12)
+	for fi := range fams {
+		for gi := range fams {
+			f, d := fams[fi], fams[gi]
+			g.Case(fmt.Sprintf("%s after %s", f.name, d.name), func(t *vlib.T) {
+				defer func() { vsync.Policy = vsync.PoolReal; vsync.Scrub = nil; vsync.Ident = nil }()
+				vsync.Policy = vsync.PoolFresh
+				want := make([][]float64, maxN+1)
+				for n := 1; n <= maxN; n++ {
+					want[n] = append([]float64(nil), f.run(n)...)
+				}
+				vsync.Policy = vsync.PoolDirty
+				vsync.Scrub = scrub
+				vsync.Ident = identOf
+				before := vsync.PoolStats
+				pairs := 0
+				for n1 := 1; n1 <= maxN; n1++ {
+					for n2 := 1; n2 <= maxN; n2++ {
+						if n1 == n2 {
+							continue
+						}
+						d.run(n1)
+						got := f.run(n2)
+						pairs++
+						if bits(got) != bits(want[n2]) {
+							t.Failf("%s(n=%d) directly after %s(n=%d), with the workspaces that left in the pools, gives %v; with empty pools %v", f.name, n2, d.name, n1, got, want[n2])
+							return
+						}
+					}
+				}
+				if vsync.PoolStats.DoublePuts != before.DoublePuts {
+					t.Failf("a workspace was released twice: %s", vsync.FirstDoublePut)
+				}
+				t.Count("pool_resize_pairs", int64(pairs))
+				t.Count("pool_reuses_observed", int64(vsync.PoolStats.Reuses-before.Reuses))
+				t.Nontrivial()
+				t.Outcome("ok")
+			})
+		}
+	}
+}
